@@ -4,6 +4,7 @@ harness/props/Cxx.py (one literal transcription of each statement)."""
 import json
 
 import common as C
+from cli_args import cli_argv
 
 US = 10**6
 EPS = 10_000            # 10 ms of slack on every timed clause (virtual time is exact; this only absorbs jitter)
@@ -98,6 +99,12 @@ def gen_scenario(r, prof):
         sc["probe_at"] = tp
         hz = tp + 10 * US
     sc["horizon_us"] = hz
+    if r.random() < prof.get("cli_p", .3):
+        # the worker is configured through its command line: argparse -> WorkerArgs -> start_listen -> Receiver(...)
+        at = sc["ack_type"]
+        sc["cli"] = cli_argv(dict(ack_type=None if at is None else r.choice([at, at, at.upper(), at.title()]),
+                                  A=A, a_spelling=r.choice([0, -1]), P=P, N=N,
+                                  wtt=None if wtt is None else wtt / 1e6))
     return sc
 
 
@@ -226,6 +233,7 @@ def acceptance(ctx, rep, label, scs, obss, check):
     for k in keep:
         if k not in badset:
             coverage(rep, obss[k]["lts"])
+            rep.count("config:via-command-line" if scs[k].get("cli") is not None else "config:direct")
     rep.traces += len(keep) - len(bad)
     return badk, fails
 
